@@ -450,7 +450,7 @@ def _run_shapes(case, ctx):
         exp2 = int.from_bytes(image2[a_ : a_ + 2], bo)
         if isinstance(r2, Err) or int(r2) != exp2:
             raise Violation("dereference-wrong-target", f"{what}: second object over other bytes, {label} at {a_}: dereference gave {r2!r}, its own stream holds {exp2} (first object's stream: {int.from_bytes(image[a_:a_ + 2], bo)})")
-    again = lib((obj.p + 0).dereference)
+    again = lib(lambda: (obj.p + 0).dereference())
     if isinstance(again, Err) or int(again) != v1:
         raise Violation("dereference-unstable", f"{what}: after a second object was parsed from other bytes, a fresh copy of the first object's p dereferences to {again!r}, expected {v1}")
     # ---- arithmetic: every operator keeps type and stream
@@ -462,12 +462,14 @@ def _run_shapes(case, ctx):
         q = lib(fn, pp, operand)
         if isinstance(q, Err) or type(q) is not type(pp) or int(q) != fn(int(pp), operand) or q._stream is not pp._stream:
             raise Violation("pointer-arithmetic", f"{what}: p {name} {operand} = {q!r} (type {type(q).__name__}); expected a {type(pp).__name__} holding {fn(int(pp), operand)} on the same stream")
-    for name, q in (("p | 0", pp | 0), ("p ** 1", pp ** 1), ("(p + k) - k", (pp + k) - k)):
-        rq = lib(q.dereference)
+    for name, mk in (("p | 0", lambda: pp | 0), ("p ** 1", lambda: pp ** 1), ("(p + k) - k", lambda: (pp + k) - k)):
+        rq = lib(lambda: mk().dereference())
         if isinstance(rq, Err) or int(rq) != v1:
             raise Violation("pointer-arithmetic", f"{what}: ({name}).dereference() = {rq!r}, p.dereference() = {v1}")
     # ---- dumping: after reassignment, from plain numbers, through write(), of the pointer itself
-    obj.p = obj.p + 1
+    r_ = lib(lambda: setattr(obj, "p", obj.p + 1))
+    if isinstance(r_, Err):
+        raise Violation("pointer-arithmetic", f"{what}: obj.p = obj.p + 1 raised {r_}", r_.where)
     d2 = lib(obj.dumps)
     exp_h = header[: 1 + n + 1] + P(a1 + 1) + header[1 + n + 1 + w :]
     if isinstance(d2, Err) or d2 != exp_h:
